@@ -1403,9 +1403,13 @@ class Process(StateMachine, persistence.Savable, metaclass=ProcessStateMachineMe
                 # Everything nominal so transition to the next state
                 self.transition_to(next_state)
 
-            newer = self._interrupt_action
-            if newer is not action and newer and not newer.cancelled() and not self.has_terminated():
-                # A pause or kill was requested during the transition (e.g. by a listener): carry it out now
+            while True:
+                # A pause or kill may have been requested during the transition (e.g. by a listener), and again while
+                # that request is carried out: run them now
+                newer = self._interrupt_action
+                if newer is action or not newer or newer.cancelled() or self.has_terminated():
+                    break
+                action = newer
                 newer.run(None)
 
         finally:
